@@ -9,7 +9,7 @@ const char* RULE =
     "SUTrace<AlignedStorage> only when the alignment guarantee is true, plus bilinearity with random coefficients. Oracle: every "
     "component of iCommutator/ACommutator vs fromM(i(AB-BA)) / fromM(AB+BA) and A*B, SUTrace vs Tr(AB), all computed in the independent "
     "long-double matrix model, two-sided, tolerance 64*d*eps*|a|_2*|b|_2; identity component of the commutator exactly zero; antisymmetry, "
-    "symmetry, bilinearity, Tr(A i[A,B])=0. Non-trivial: a generator pair whose commutator or anticommutator or trace is non-zero, or "
+    "symmetry, bilinearity, Tr(A i[A,B])=0, and X=op(X,B) / X=op(A,X) equal to the unaliased result. Non-trivial: a generator pair whose commutator or anticommutator or trace is non-zero, or "
     "a pair with >=2 non-zero components each and a non-zero exact result; distinct by digest of consumed bytes.";
 void harness_init() { quiet_gsl(); }
 
@@ -110,6 +110,20 @@ void run_case(ByteSource& s, CaseInfo& ci) {
   // Tr(A i[A,B]) = 0
   double tz = A * C1;
   CHECK(fabsl((ld)tz) <= 256 * d * d * EPS * na * na * nb + TINY * (1 + na), fmt("C02|trace-A-commutator|nonzero|d=%d", d), "Tr(A i[A,B])=%.17g scale=%.3Lg", tz, na * na * nb);
+  // assignment of a commutator to a target that is one of its operands (the target must not be read after it is written)
+  {
+    unsigned al = s.choose(5);
+    if (al) {
+      SU_vector X = al <= 2 ? A : B;   // copy of the operand that will also be the target
+      SU_vector other = al <= 2 ? B : A;
+      const SU_vector& want = (al % 2) ? C1 : A1;
+      if (al == 1) X = squids::iCommutator(X, other); else if (al == 2) X = squids::ACommutator(X, other);
+      else if (al == 3) X = squids::iCommutator(other, X); else X = squids::ACommutator(other, X);
+      for (int i = 0; i < d * d; i++)
+        CHECK(bit_equal(X[i], want[i]) || X[i] == want[i], fmt("C02|%s|wrong-when-target-is-operand-%d|d=%d", (al % 2) ? "iCommutator" : "ACommutator", al <= 2 ? 1 : 2, d), "slot %d %.17g vs %.17g", i, X[i], want[i]);
+      ci.label("alias-target");
+    }
+  }
   // bilinearity: iC(x A + y A', B) = x iC(A,B) + y iC(A',B)
   if (s.flag()) {
     std::vector<double> a2 = gen_dense(s, d);
